@@ -134,6 +134,21 @@ PROPS = {
         assumptions=COMMON_ASSUME + ["a torn write leaves a prefix of the write on the medium (octet granularity); one fault per operation"],
         targets=[enum("enum", ["props/C11_enum.cpp"], qs=12, ts=16)],
     ),
+    "C20": dict(
+        level="exploration",
+        exhaustive_possible=False,
+        rule="cases are input strings (renderings of generated trees, enumerated short strings, fuzzer inputs), each presented NUL-terminated and length-delimited on an exact-size block, "
+             "judged by an independent reference reader (accept with tree+position / reject / don't-care) plus an allocation ledger; non-trivial = a tree with a nested empty list, an "
+             "upper-case hex digit or depth >= 3, or a string the reference rejects after at least one valid token; distinct by input",
+        assumptions=COMMON_ASSUME + ["don't-care inputs (first non-blank character ')', blank-only input, integers of more than 19 decimal / 16 hex digits, NUL or octets >= 0x80, '#X' prefix) "
+                                     "are only checked for memory safety, termination and leaks"],
+        targets=[
+            enum("enum", ["props/C20_enum.cpp"], qs=12, ts=16, extra_objs=["sx_ledger.o"]),
+            rc("rc", ["props/C20_rc.cpp"], 1500, 30000, qs=4, ts=16, max_size=200, extra_objs=["sx_ledger.o"]),
+            dict(name="fuzz", sources=["props/C20_fuzz.cpp"], fuzz=True, lib="fuzz", corpus="C20", dict="corpus/C20.dict", max_len=128, fuzz_args=["-only_ascii=1"], extra_objs=["sx_ledger.o"],
+                 quick=dict(shards=4, runs=150000), thorough=dict(shards=16, runs=4000000, max_total_time=240)),
+        ],
+    ),
 }
 
 NOTE_COMMON = ("trusted: clang/ASan/UBSan, the harness and its reference model; the search is bounded (see evidence: tier bounds and counts); "
@@ -217,6 +232,14 @@ MANIFEST_TEXT = {
         level_text="For each configuration of a reduced grid every crash point of every store (each octet position of each medium write, so whole-write prefixes and torn writes) is executed, "
                    "then a fresh instance validates and fetches; independently a failing or short medium call is injected at every call index of every operation. The enumeration is "
                    "complete per configuration and operation; configurations are a bounded grid.",
+        level_note=NOTE_COMMON,
+    ),
+    "C20": dict(
+        engine="enum + rapidcheck + libFuzzer",
+        technique="bounded-exhaustive trees and strings, rapidcheck random trees, libFuzzer byte strings, against an independent reference reader + allocation ledger + ASan on exact-size inputs",
+        level_text="All trees up to 5 (thorough 6) nodes in several renderings and all strings up to length 6 (7) over a 10-character alphabet are parsed through both entry points and "
+                   "compared with a reference reader written from the grammar (maximal-munch tokens); allocations of sx.c are counted by renaming malloc/calloc/free at compile time, "
+                   "so a leak is an exact per-case count; larger trees come from rapidcheck, arbitrary octets from a coverage-guided fuzzer.",
         level_note=NOTE_COMMON,
     ),
 }
